@@ -144,7 +144,50 @@ func buildCkpt(r *lib.Rng, z *zoo) (*object, error) {
 		shared = append(shared, compose.WithLambdaOption(lopt{Val: "S2"}).DesignateNodeWithPath(compose.NewNodePath("sg", "i1")))
 	}
 	shared = shared[:len(shared):len(shared)]
+	// model: the uninterrupted run, plus the trail of interrupts the compile options imply
+	d := &dGraph{dag: dag, state: true}
+	d.node("a", fn1("FV", "a"), 0, "pre="+fn1("HPreLog", "a"))
+	d.edge(compose.START, "a")
+	mlast, trail := "a", ""
+	if after {
+		trail += "I(|a||)"
+	}
+	if withSub {
+		di := &dGraph{}
+		di.node("i1", fn1("FV", "sg.i1"), 0)
+		di.node("i2", fn1("FV", "sg.i2"), -1)
+		di.edge(compose.START, "i1")
+		di.edge("i1", "i2")
+		di.edge("i2", compose.END)
+		di.defaultMax()
+		d.node("sg", "(FSub "+di.term()+")", -1)
+		d.edge(mlast, "sg")
+		mlast = "sg"
+		trail += "I(|||sg[i2])"
+	}
+	if rerun {
+		d.node("rr", "FRr", -1)
+		d.edge(mlast, "rr")
+		mlast = "rr"
+		trail += "I(||rr|)"
+	}
+	d.node("b", fn1("FV", "b"), 0, "pre="+fn1("HPreLog", "b"))
+	d.node("c", "FCkC", -1)
+	d.edge(mlast, "b")
+	d.edge("b", "c")
+	d.edge("c", compose.END)
+	d.defaultMax()
+	trail += "I(b|||)"
+	mshared := []string{opT(0, "S", []string{"b"})}
+	if withSub {
+		mshared = append(mshared, opT(0, "S2", []string{"sg", "i1"}))
+	}
 	return &object{
+		desc: d, depth: 2,
+		mcall: func(sp spec, si int) string {
+			return callTermSuffix(vR(selfTag, 0, sp.In, fmt.Sprintf("in%d", sp.In)),
+				mWithShared(sp.Opt, mshared, mLambdaOpts(si, sp.Opt, "a", "b")), trail)
+		},
 		kind:  "ckpt",
 		shape: []string{fmt.Sprintf("sub:%v", withSub), fmt.Sprintf("rerun:%v", rerun), fmt.Sprintf("after:%v", after), fmt.Sprintf("dag:%v", dag)},
 		nIn:   3, paras: allParas,
@@ -399,7 +442,46 @@ func buildComp(r *lib.Rng, z *zoo) (*object, error) {
 		compose.WithChatModelOption(model.WrapImplSpecificOptFn(func(o *mopt) { o.Val += "S" })),
 		compose.WithCallbacks(sharedHandler("sd")).DesignateNode("ret", "idx"),
 	}
+	d := &dGraph{dag: !pregel}
+	d.node("tpl", "FTpl", 8)
+	d.node("cm", "(FModel "+q("comp")+" 0%nat)", 1)
+	d.node("toq", "FToq", -1)
+	d.node("ret", "FRet", 3)
+	d.node("xf", "FXf", 4)
+	d.node("tosrc", "FToSrc", -1)
+	d.node("ld", "FLd", 5)
+	d.node("ldout", fn1("FOutS", "ldout"), -1, "out=loaded")
+	d.node("idx", "FIdx", 6)
+	d.node("idxout", fn1("FOutS", "idxout"), -1, "out=ids")
+	d.node("tostrs", "FToStrs", -1)
+	d.node("emb", "FEmb", 7)
+	d.node("embout", fn1("FOutS", "embout"), -1, "out=vecs")
+	d.node("docsout", fn1("FOutS", "docsout"), -1, "out=docs")
+	for _, e := range [][2]string{{compose.START, "tpl"}, {"tpl", "cm"}, {"cm", "toq"}, {"toq", "ret"}, {"toq", "tosrc"}, {"tosrc", "ld"}, {"ld", "ldout"},
+		{"ret", "xf"}, {"xf", "idx"}, {"idx", "idxout"}, {"xf", "tostrs"}, {"tostrs", "emb"}, {"emb", "embout"}, {"xf", "docsout"},
+		{"ldout", compose.END}, {"idxout", compose.END}, {"embout", compose.END}, {"docsout", compose.END}} {
+		d.edge(e[0], e[1])
+	}
+	d.defaultMax()
+	mshared := []string{opT(3, "S"), opT(7, "S", []string{"emb"}), opT(1, "S")}
 	return &object{
+		desc: d,
+		mcall: func(sp spec, si int) string {
+			kv := []string{}
+			if hist {
+				kv = append(kv, "hist", vMsgs(msgT("user", "earlier "+selfTag), msgT("assistant", fmt.Sprintf("reply%d", sp.In))))
+			}
+			kv = append(kv, "id", vS(selfTag), "x", vS(strings.Repeat("y", sp.In+1)))
+			val := fmt.Sprintf("c%d", si)
+			var own []string
+			if sp.Opt&optLambdaDesignated != 0 {
+				own = append(own, opT(3, val, []string{"ret"}), opT(4, val, []string{"xf"}), opT(5, val, []string{"ld"}))
+			}
+			if sp.Opt&optLambdaGlobal != 0 {
+				own = append(own, opT(6, val), opT(7, val), opT(1, val), opT(8, val))
+			}
+			return callTerm(vM(kv...), mWithShared(sp.Opt, mshared, own), 0)
+		},
 		kind: "comp", shape: []string{fmt.Sprintf("pregel:%v", pregel), fmt.Sprintf("hist:%v", hist)},
 		nIn: 4, paras: allParas,
 		optSet:  []int{0, optLambdaDesignated, optLambdaGlobal, optLambdaDesignated | optLambdaGlobal | optCbGlobal, optCbThree | optCbDesignated, optCtxHandlers, optShared, optShared | optLambdaDesignated},
@@ -494,7 +576,21 @@ func buildReent(r *lib.Rng, z *zoo) (*object, error) {
 	}
 	self = run
 	shared := []compose.Option{compose.WithLambdaOption(lopt{Val: "S"}).DesignateNode("a"), compose.WithCallbacks(sharedHandler("so"))}
+	d := &dGraph{dag: dag, state: true}
+	d.node("a", fn1("FV", "a"), 0, "pre=HPreReent")
+	d.node("rec", "FRec", -1)
+	d.node("z", "FZ", -1)
+	for _, e := range [][2]string{{compose.START, "a"}, {"a", "rec"}, {"rec", "z"}, {"z", compose.END}} {
+		d.edge(e[0], e[1])
+	}
+	d.defaultMax()
+	mshared := []string{opT(0, "S", []string{"a"})}
 	return &object{
+		desc: d, depth: 4,
+		mcall: func(sp spec, si int) string {
+			return callTerm(vR(selfTag, 0, sp.In, fmt.Sprintf("in%d", sp.In)),
+				mWithShared(sp.Opt, mshared, mLambdaOpts(si, sp.Opt, "a")), 0)
+		},
 		kind: "reent", shape: []string{fmt.Sprintf("samectx:%v", sameCtx), fmt.Sprintf("dag:%v", dag)},
 		nIn: 3, paras: allParas,
 		optSet:  []int{0, optLambdaDesignated, optCbGlobal, optCbThree, optCtxHandlers, optShared},
@@ -578,7 +674,45 @@ func buildMulti(r *lib.Rng, z *zoo) (*object, error) {
 		compose.WithLambdaOption(lopt{Val: "S1"}).DesignateNode("m1", "e1"),
 		compose.WithCallbacks(sharedHandler("sp")).DesignateNodeWithPath(compose.NewNodePath("sub", "c1")),
 	}
+	dCh := &dGraph{}
+	dCh.node("c1", fn1("FM", "c1"), 0)
+	dCh.node("c2", fn1("FM", "c2"), 0)
+	dCh.edge(compose.START, "c1")
+	dCh.edge("c1", "c2")
+	dCh.edge("c2", compose.END)
+	dCh.defaultMax()
+	dWf := &dGraph{dag: true}
+	dWf.node("w1", fn1("FM", "w1"), 0)
+	dWf.edge(compose.START, "w1")
+	dWf.edge("w1", compose.END)
+	d := &dGraph{}
+	d.node("pt", "FPass", -1)
+	for _, k := range heads {
+		d.node(k, fn1("FM", k), 0)
+		d.edge(k, "pt")
+	}
+	d.branch(compose.START, "(BBits "+lib.CoqStrList(heads)+")", heads...)
+	d.node("sub", "(FSub "+dCh.term()+")", -1)
+	d.edge("pt", "sub")
+	d.node("e0", "(FSub "+dWf.term()+")", -1)
+	d.node("e1", fn1("FM", "e1"), 0)
+	d.branch("sub", "(BLenMod "+q("sub")+" "+lib.CoqStrList(ends)+")", ends...)
+	d.edge("e0", compose.END)
+	d.edge("e1", compose.END)
+	d.defaultMax()
+	mshared := []string{opT(0, "S", []string{"sub", "c2"}, []string{"e0", "w1"}), opT(0, "S1", []string{"m1"}, []string{"e1"})}
 	return &object{
+		desc: d, depth: 2,
+		mcall: func(sp spec, si int) string {
+			var own []string
+			if sp.Opt&optLambdaDesignated != 0 {
+				own = append(own, opT(0, fmt.Sprintf("p%d", si), []string{"sub", "c1"}, []string{"m0"}))
+			}
+			if sp.Opt&optLambdaGlobal != 0 {
+				own = append(own, opT(0, fmt.Sprintf("g%d", si)))
+			}
+			return callTerm(vM("id", vS(selfTag), "x", vS(strings.Repeat("x", sp.In+1))), mWithShared(sp.Opt, mshared, own), 0)
+		},
 		kind: "multi", shape: []string{"multi:std"},
 		nIn: 7, paras: allParas,
 		optSet:  []int{0, optLambdaDesignated, optLambdaGlobal, optCbGlobal, optCbThree | optCbDesignated, optCtxHandlers, optShared, optShared | optLambdaDesignated | optCbGlobal},
@@ -604,11 +738,11 @@ func buildMulti(r *lib.Rng, z *zoo) (*object, error) {
 func buildEmbed(r *lib.Rng, z *zoo) (*object, error) {
 	ctx := context.Background()
 	var shape []string
-	ag, err := z.reactAgent(ctx, r, &shape)
+	ag, d1, err := z.reactAgentD(ctx, r, &shape)
 	if err != nil {
 		return nil, err
 	}
-	ag2, err := z.reactAgent(ctx, r, &shape)
+	ag2, d2, err := z.reactAgentD(ctx, r, &shape)
 	if err != nil {
 		return nil, err
 	}
@@ -642,7 +776,26 @@ func buildEmbed(r *lib.Rng, z *zoo) (*object, error) {
 		compose.WithChatModelOption(model.WrapImplSpecificOptFn(func(o *mopt) { o.Val += "S" })).DesignateNodeWithPath(compose.NewNodePath("ag", "chat")),
 		compose.WithCallbacks(sharedHandler("so")),
 	}
+	d := &dGraph{dag: true}
+	d.node("ag", "(FSub "+d1.term()+")", -1, "out=ag")
+	d.node("ag2", "(FSub "+d2.term()+")", -1, "out=ag2")
+	d.node("out", "FEmbedOut", -1)
+	for _, e := range [][2]string{{compose.START, "ag"}, {compose.START, "ag2"}, {"ag", "out"}, {"ag2", "out"}, {"out", compose.END}} {
+		d.edge(e[0], e[1])
+	}
 	return &object{
+		desc: d, depth: 2,
+		mcall: func(sp spec, si int) string {
+			var own []string
+			if sp.Opt&optLambdaDesignated != 0 {
+				own = append(own, opT(1, fmt.Sprintf("m%d", si), []string{"ag2", "chat"}))
+			}
+			if sp.Opt&optLambdaGlobal != 0 {
+				own = append(own, opT(2, fmt.Sprintf("t%d", si)))
+			}
+			return callTerm(vMsgs(msgT("user", selfTag+" "+reactScripts[sp.In%len(reactScripts)])),
+				mWithShared(sp.Opt, strs(opT(1, "S", []string{"ag", "chat"})), own), 0)
+		},
 		kind: "embed", shape: shape,
 		nIn: len(reactScripts), paras: allParas,
 		optSet:  []int{0, optLambdaDesignated, optLambdaGlobal, optCbGlobal, optCbThree, optCtxHandlers, optShared, optShared | optLambdaGlobal},
